@@ -13,10 +13,13 @@ EXPLANATION = (
 
 def run(ctx):
     ctx.uses('simulator', 'simevent')
+    # first: state shared between simulator objects (it makes every later anchor meaningless, so it is reported even when they vanish)
+    S.shared_state(ctx, None, 'R5.5')
     sc = S.SimCtx(ctx.prog)
-    S.shared_state(ctx, sc, 'R5.5')
     S.r51_strategy_table(ctx, sc)
     S.r52_handler_cannot_raise(ctx, sc)
     S.r53_step_finally(ctx, sc)
     S.r54_strategy_setter(ctx, sc)
     S.r21_typestate(ctx, sc)
+    # resuming after a pause executes the remaining events only if the wake-up of the resumed run is not lost (shared rule with C04)
+    S.r44_wait_clear(ctx, sc)
